@@ -41,6 +41,9 @@ type Explorer struct {
 	Violations []Violation
 	MaxViol    int
 	Sample     []Event
+	// KeepSamples keeps, per distinct outcome, the events and choice list of the first execution that produced it.
+	KeepSamples bool
+	Samples     map[uint64]Violation
 }
 
 type dfsStrategy struct {
@@ -91,10 +94,16 @@ type frame struct {
 
 func outcomeHash(r *Result) uint64 {
 	h := uint64(1469598103934665603)
+	var notes uint64
 	for _, e := range r.Events {
+		if e.Note {
+			notes += mix(hashString(e.Text), 0x907e) // order-insensitive; thread ids depend on creation order
+			continue
+		}
 		h = mix(h, hashString(e.Monitor))
 		h = mix(h, hashString(e.Text))
 	}
+	h = mix(h, notes)
 	if r.Deadlock {
 		h = mix(h, 0xdead10c)
 	}
@@ -151,7 +160,14 @@ func (ex *Explorer) judge(r *Result, st *dfsStrategy) {
 	if st.preempt > ex.MaxPreempt {
 		ex.MaxPreempt = st.preempt
 	}
-	ex.Outcomes[outcomeHash(r)]++
+	oh := outcomeHash(r)
+	ex.Outcomes[oh]++
+	if ex.KeepSamples && ex.Outcomes[oh] == 1 {
+		if ex.Samples == nil {
+			ex.Samples = map[uint64]Violation{}
+		}
+		ex.Samples[oh] = Violation{Choices: append([]int{}, st.choices...), Events: r.Events}
+	}
 	if ex.Sample == nil {
 		ex.Sample = r.Events
 	}
